@@ -1578,7 +1578,7 @@ MANIFEST = dict(
          "every position) and DataCombination (all 85 shapes of 0-3 item lists of length 0-3 in 3 value variants, "
          "and all 820 tuples of equality patterns inside the item lists rendered as repeated labels, ==-equal values "
          "of different type and unhashable equal values, vs a nested-loop product). Thorough: 5 keys (plus a 4-key run with 2 pending "
-         "refusals), depth 7/6, unpruned depth 4, n 0..40 x ncols 1..12, 0-4 lists of length 0-4, patterns to length 4.",
+         "refusals), depth 7/6, unpruned depth 4, n 0..40 x ncols 1..12, 0-4 lists of length 0-4, patterns to length 4. Class-level containers and mutable default arguments of the helper classes are restored between histories; every E1 history of length <= 4 is followed, while its object is alive, by new and new+op for every operation of every configuration on fresh objects (later-instance probe).",
     note="Trusted: Python dict/list semantics as the model, canonicalisation of vars(object) as the complete state. "
          "Not covered: negative positions, integer keys, ragged rows, mixed-type columns, order among tied rows, the "
          "state between a refused assignment of a new key and its retry, to_dataframe/to_text; histories beyond the "
